@@ -179,7 +179,12 @@ class C07(CheckBase):
             for _ in range(rng.below(3)):
                 argv.append(num())
         elif cmd == 'dump-sector':
-            argv += [num(), num() if hostile else str(rng.below(80)), num() if hostile else str(rng.below(10))]
+            drv = num()
+            if not hostile and image.get('slots'):
+                # any slot's drive, formatted or not (slot n is drive 2n under the default policy)
+                drv = str(2 * int(rng.choice(sorted(image['slots']))))
+            edge = lambda n: str(rng.weighted([(3, 0), (2, n - 1), (1, n), (4, rng.below(n))]))
+            argv += [drv, num() if hostile else edge(80), num() if hostile else edge(10)]
             if hostile and rng.chance(0.3):
                 argv = argv[:rng.randint(1, 3)]
         elif cmd in ('extract-files', 'extract-unused'):
